@@ -991,6 +991,10 @@ from mlmverif.selfcheck import B, OK  # noqa: E402
 _F = 'chainables/tree_fns.py'
 _T = 'chainables/transform.py'
 VARIANTS = [
+    OK('copy-and-set-through-a-local', 'chainables/tree.py',
+       "    return self.set(keys, values, in_place=False)", "    updated = self.set(keys, values, in_place=False)\n    return updated"),
+    OK('outputs-view-through-a-local', 'chainables/tree_fns.py',
+       "    result = tree.TreeMapView(inputs)\n", "    view = tree.TreeMapView(inputs)\n    result = view\n"),
     OK('setter-copy-as-statement', 'chainables/tree.py',
        "      result = tree if in_place else copy.copy(tree)", "      if in_place:\n        result = tree\n      else:\n        result = copy.copy(tree)"),
     B('none-parent-taken-for-a-missing-key', 'chainables/tree.py',
